@@ -135,4 +135,11 @@ SERVES = {"X05": dict(assumptions=[
     "call they get to one recorder contract; 'a notification was recorded' means the recorder holds it after the call",
     "amounts are logged as small model numbers (1000000 = i128::MAX, -1000000 = i128::MIN, 999999 = i128::MAX - 1, "
     "500000 = 2^64); the converse directions (a hook call must succeed, FALSE needs a rejecting module) are claimed "
-    "for amounts >= 0 only"])}
+    "for amounts >= 0 only"]),
+    # C04 demands "the compliance contract approves the transfer" and "is notified exactly once, with the exact parties
+    # and amount": with the library's modular compliance contract (an anchor of C04) that is its hook dispatch
+    "C04": dict(assumptions=["the RWA token of the C04 model talks to a scripted compliance contract; the library's modular "
+                             "compliance contract (hook dispatch to registered modules) is judged separately by the Compliance "
+                             "model, whose monitors count for C04 as well"],
+                also=["X05_verdict_true", "X05_verdict_false", "X05_verdict_live", "X05_notify_gate", "X05_notify_exact",
+                      "X05_notify_live", "X05_atomic", "X05_readonly", "X05_order", "X05_lists"])}
